@@ -232,6 +232,21 @@ var edgeSizes = []int{0, 1, 2, 3, 4, 58, 59, 60, 61, 62, 63, 119, 120, 121, 122}
 // one input per boundary named in the property.
 func FixedSpecs() []Spec {
 	var out []Spec
+	// adaptive-tree rebuild (root frequency 0x8000 after ~32.4k symbols), one and several rebuilds
+	out = append(out,
+		Spec{Fam: "random", Size: 33000, Seed: 41},            // > 33k literals, one rebuild
+		Spec{Fam: "random", Size: 70000, Seed: 42},            // three rebuilds
+		Spec{Fam: "random", Size: 200000, Seed: 43},           // many rebuilds
+		Spec{Fam: "dict", Size: 200000, P: 64, Seed: 44},      // > 33k matches
+		Spec{Fam: "dict", Size: 400000, P: 300, Seed: 45},     // > 66k matches
+		Spec{Fam: "lowent", Size: 100000, P: 3, Seed: 46},     // long matches, all far positions
+		Spec{Fam: "onebyte", Size: 100000, P: 0, Seed: 47},    // only length-60 matches
+		Spec{Fam: "onebyte", Size: 2100000, P: ' ', Seed: 48}, // > 33k matches of length 60
+		Spec{Fam: "runs", Size: 60000, P: 200, Seed: 49},
+		Spec{Fam: "text", Size: 400000, Seed: 50},
+		Spec{Fam: "mixed", Size: 150000, Seed: 51},
+		Spec{Fam: "mixed", Size: 400000, Seed: 52},
+	)
 	for _, n := range edgeSizes {
 		out = append(out,
 			Spec{Fam: "random", Size: n, Seed: 11},
@@ -250,21 +265,6 @@ func FixedSpecs() []Spec {
 	for _, n := range []int{2047, 2048, 2049, 4095, 4096, 4097, 6144} {
 		out = append(out, Spec{Fam: "text", Size: n, Seed: 31}, Spec{Fam: "random", Size: n, Seed: 32}, Spec{Fam: "dict", Size: n, P: 40, Seed: 33})
 	}
-	// adaptive-tree rebuild (root frequency 0x8000 after ~32.4k symbols), one and several rebuilds
-	out = append(out,
-		Spec{Fam: "random", Size: 33000, Seed: 41},            // > 33k literals, one rebuild
-		Spec{Fam: "random", Size: 70000, Seed: 42},            // three rebuilds
-		Spec{Fam: "random", Size: 200000, Seed: 43},           // many rebuilds
-		Spec{Fam: "dict", Size: 200000, P: 64, Seed: 44},      // > 33k matches
-		Spec{Fam: "dict", Size: 400000, P: 300, Seed: 45},     // > 66k matches
-		Spec{Fam: "lowent", Size: 100000, P: 3, Seed: 46},     // long matches, all far positions
-		Spec{Fam: "onebyte", Size: 100000, P: 0, Seed: 47},    // only length-60 matches
-		Spec{Fam: "onebyte", Size: 2100000, P: ' ', Seed: 48}, // > 33k matches of length 60
-		Spec{Fam: "runs", Size: 60000, P: 200, Seed: 49},
-		Spec{Fam: "text", Size: 400000, Seed: 50},
-		Spec{Fam: "mixed", Size: 150000, Seed: 51},
-		Spec{Fam: "mixed", Size: 400000, Seed: 52},
-	)
 	for i := range GoldenPlain() {
 		out = append(out, Spec{Fam: "golden", P: i, Size: len(GoldenPlain()[i].Data), Seed: 60})
 	}
@@ -302,6 +302,27 @@ func RandomSpec(r *rand.Rand) Spec {
 		s.P = r.Intn(130)
 	}
 	return s
+}
+
+// LongChunks cuts the index range of LongSpecs(seed, n) into batches [lo,hi): the 12 big inputs at
+// the front two by two, the other fixed ones in sixes, the PRNG ones in tens.
+func LongChunks(n int) [][2]int {
+	nFixed := len(FixedSpecs())
+	total := nFixed + n
+	var out [][2]int
+	for lo := 0; lo < total; {
+		step, lim := 10, total
+		switch {
+		case lo < 12:
+			step, lim = 2, 12
+		case lo < nFixed:
+			step, lim = 6, nFixed
+		}
+		hi := min(lo+step, lim)
+		out = append(out, [2]int{lo, hi})
+		lo = hi
+	}
+	return out
 }
 
 // LongSpecs returns the fixed specs followed by n PRNG-drawn ones.
@@ -461,4 +482,21 @@ func PickReadPlan(i uint64, seed int64) ReadPlan {
 	default:
 		return ReadPlan{Kind: "prng-small", Seed: seed + int64(i)}
 	}
+}
+
+// LeadWithOneOfEach moves the first case of every kind to the front of the plan (the evidence file
+// shows the samples of the first few cases, which should not all be of one kind). The order of the
+// remaining cases is kept.
+func LeadWithOneOfEach(cs []vrt.Case, kind func(vrt.Case) string) []vrt.Case {
+	seen := map[string]bool{}
+	var lead, rest []vrt.Case
+	for _, c := range cs {
+		if k := kind(c); !seen[k] {
+			seen[k] = true
+			lead = append(lead, c)
+		} else {
+			rest = append(rest, c)
+		}
+	}
+	return append(lead, rest...)
 }
